@@ -215,6 +215,8 @@ def generate(seed, prop):
         w["update_member"] = 0.6
     if prop == "C06":
         w["fdwra"] = 5.0
+        if kind == "azimuthal" and n_az > 1:
+            w["update_member"] = 0.8       # one azimuth searched on its own before the rejection brings all to one range
     if prop == "C12":
         w["write_read"] = 3.0
         if kind != "diffuse":
